@@ -510,10 +510,40 @@ class _Expr(ast.NodeTransformer):
             node.values = out
         return node
 
+    def visit_IfExp(self, node):
+        self.generic_visit(node)
+        t = node.test
+        # a if not c else b  ->  b if c else a      (positive test first)
+        if (isinstance(t, ast.UnaryOp) and isinstance(t.op, ast.Not)) or (
+                isinstance(t, ast.Compare) and len(t.ops) == 1 and isinstance(t.ops[0], (ast.NotIn, ast.IsNot, ast.NotEq))):
+            node = ast.IfExp(test=negate(t), body=node.orelse, orelse=node.body)
+            t = node.test
+        # max(f(x) for x in S) + k if S else c   ->   max((f(x) for x in S), default=c - k) + k     (S a built-in container:
+        # true exactly when the generator yields something)
+        b = node.body
+        if isinstance(b, ast.BinOp) and isinstance(b.op, ast.Add) and isinstance(b.right, ast.Constant) and type(b.right.value) is int \
+                and isinstance(node.orelse, ast.Constant) and type(node.orelse.value) is int and isinstance(b.left, ast.Call) \
+                and isinstance(b.left.func, ast.Name) and b.left.func.id in ("max", "min") and len(b.left.args) == 1 and not b.left.keywords \
+                and isinstance(b.left.args[0], ast.GeneratorExp) and len(b.left.args[0].generators) == 1 \
+                and not b.left.args[0].generators[0].ifs and pure_read(t) and isinstance(t, (ast.Name, ast.Attribute)) \
+                and ast.dump(b.left.args[0].generators[0].iter) == ast.dump(t):
+            call = ast.Call(func=b.left.func, args=b.left.args, keywords=[ast.keyword(arg="default", value=ast.Constant(value=node.orelse.value - b.right.value))])
+            return ast.BinOp(left=call, op=ast.Add(), right=b.right)
+        return node
+
     def visit_Call(self, node):
         self.generic_visit(node)
         f = node.func
         fname = unparse(f)
+        # f([.. for ..]) -> f(.. for ..) for a consumer that reads every element in order; any / all stop early, which only
+        # shows when evaluating an element has an effect
+        if isinstance(f, ast.Name) and len(node.args) == 1 and isinstance(node.args[0], ast.ListComp) and not node.keywords and (
+                f.id in ("sum", "min", "max", "sorted", "set", "frozenset", "tuple", "list") or (f.id in ("any", "all") and pure_read(node.args[0]))):
+            node = ast.Call(func=f, args=[ast.GeneratorExp(elt=node.args[0].elt, generators=node.args[0].generators)], keywords=[])
+        if isinstance(f, ast.Name) and f.id in ("max", "min") and len(node.args) == 1 and isinstance(node.args[0], ast.GeneratorExp) \
+                and len(node.keywords) == 1 and node.keywords[0].arg == "default" and isinstance(node.keywords[0].value, ast.UnaryOp) \
+                and isinstance(node.keywords[0].value.op, ast.USub) and isinstance(node.keywords[0].value.operand, ast.Constant):
+            node.keywords[0].value = ast.Constant(value=-node.keywords[0].value.operand.value)
         # product folds
         if fname in ("reduce", "functools.reduce") and len(node.args) == 3 and isinstance(node.args[2], ast.Constant) and node.args[2].value == 1:
             fn0 = node.args[0]
@@ -781,10 +811,62 @@ def n_comp(block, owner, field):
                         out.append(ast.Assign(targets=[ast.Name(id=flag, ctx=ast.Store())], value=anyc, lineno=getattr(st, "lineno", 0)))
                         i += 1
                         done = True
+                elif len(body) == 2 and isinstance(body[1], ast.Break) and isinstance(body[0], ast.Assign) and len(parts) == 1 \
+                        and len(body[0].targets) == 1 and isinstance(body[0].targets[0], ast.Name) and getattr(n_comp, "_fn", None) is not None:
+                    # x = K ; [statements not mentioning x] ; for v in L: if c: x = E; break   ->   x = next((E for v in L if c), K)
+                    # (the loop variable is not looked at after the loop)
+                    x = body[0].targets[0].id
+                    val = body[0].value
+                    k = len(out) - 1
+                    while k >= 0 and not _mentions(x, out[k]):
+                        k -= 1
+                    loop_vars = {n.id for n in ast.walk(parts[0][1]) if isinstance(n, ast.Name)}
+                    fn_ = n_comp._fn
+                    private = all(
+                        sum(1 for n in ast.walk(fn_) if isinstance(n, ast.Name) and n.id == v) == sum(1 for n in ast.walk(st) if isinstance(n, ast.Name) and n.id == v)
+                        for v in loop_vars)
+                    if k >= 0 and isinstance(out[k], ast.Assign) and len(out[k].targets) == 1 and isinstance(out[k].targets[0], ast.Name) \
+                            and out[k].targets[0].id == x and isinstance(out[k].value, ast.Constant) and private and x not in loop_vars \
+                            and not _uses(x, cur.test) and not _uses(x, val) and not _uses(x, parts[0][2]) \
+                            and not any(isinstance(n, (ast.NamedExpr, ast.Yield, ast.YieldFrom, ast.Await)) for n in ast.walk(cur)):
+                        default = out[k].value
+                        del out[k]
+                        g2 = _mk_generators(parts + [("if", cur.test)])
+                        out.append(ast.Assign(
+                            targets=[ast.Name(id=x, ctx=ast.Store())],
+                            value=ast.Call(func=ast.Name(id="next", ctx=ast.Load()), args=[ast.GeneratorExp(elt=val, generators=g2), default], keywords=[]),
+                            lineno=getattr(st, "lineno", 0)))
+                        i += 1
+                        done = True
+        # d.update({k: v for ..})   (k, v do not read d)   ->   for ..: d[k] = v
+        if not done and isinstance(st, ast.Expr) and isinstance(st.value, ast.Call) and isinstance(st.value.func, ast.Attribute) \
+                and st.value.func.attr == "update" and isinstance(st.value.func.value, ast.Name) and len(st.value.args) == 1 and not st.value.keywords \
+                and isinstance(st.value.args[0], ast.DictComp) and not _uses(st.value.func.value.id, st.value.args[0]) \
+                and not any(g.is_async for g in st.value.args[0].generators):
+            comp = st.value.args[0]
+            d = st.value.func.value.id
+            _FRESH[0] += 1
+            names = {n.id for g in comp.generators for n in ast.walk(g.target) if isinstance(n, ast.Name)}
+            ren = _Rename({n: f"__u{_FRESH[0]}_{n}" for n in names})
+            first_iter = comp.generators[0].iter
+            body = [ast.Assign(targets=[ast.Subscript(value=ast.Name(id=d, ctx=ast.Load()), slice=ren.visit(copy.deepcopy(comp.key)), ctx=ast.Store())],
+                               value=ren.visit(copy.deepcopy(comp.value)), lineno=getattr(st, "lineno", 0))]
+            for gi in range(len(comp.generators) - 1, -1, -1):
+                g = comp.generators[gi]
+                for cond in reversed(g.ifs):
+                    body = [ast.If(test=ren.visit(copy.deepcopy(cond)), body=body, orelse=[], lineno=getattr(st, "lineno", 0))]
+                it = copy.deepcopy(first_iter) if gi == 0 else ren.visit(copy.deepcopy(g.iter))
+                body = [ast.For(target=ren.visit(copy.deepcopy(g.target)), iter=it, body=body, orelse=[], lineno=getattr(st, "lineno", 0))]
+            out.extend(body)
+            i += 1
+            done = True
         if not done:
             out.append(st)
             i += 1
     return out
+
+
+_FRESH = [0]
 
 
 # --------------------------------------------------------------------------- N-flow
@@ -834,6 +916,31 @@ def _known_membership(block):
 
 def n_flow(block, owner, field):
     block = _known_membership(block)
+    # `x = K` ; `if c: x = b`   (K a constant, c and b do not read x)   ->   `x = b if c else K`
+    pre = []
+    for st in block:
+        prev = pre[-1] if pre else None
+        if (
+            isinstance(st, ast.If) and not st.orelse and len(st.body) == 1 and isinstance(st.body[0], ast.Assign) and len(st.body[0].targets) == 1
+            and isinstance(st.body[0].targets[0], ast.Name) and isinstance(prev, ast.Assign) and len(prev.targets) == 1
+            and isinstance(prev.targets[0], ast.Name) and prev.targets[0].id == st.body[0].targets[0].id and isinstance(prev.value, ast.Constant)
+            and prev.value.value is not None  # (`x = None` before a conditional store is handled as a known fact instead)
+            and not _uses(prev.targets[0].id, st.test) and not _uses(prev.targets[0].id, st.body[0].value)
+            and not any(isinstance(n, ast.NamedExpr) for n in ast.walk(st.test))
+        ):
+            pre[-1] = ast.Assign(targets=prev.targets, value=ast.IfExp(test=st.test, body=st.body[0].value, orelse=prev.value), lineno=getattr(prev, "lineno", 0))
+        else:
+            pre.append(st)
+    block = pre
+    # `if a not in b: A else: B`  ->  `if a in b: B else: A`     (positive test first; neither branch is a guard)
+    pre = []
+    for st in block:
+        if isinstance(st, ast.If) and st.orelse and not ends_with_jump(st.body) and not ends_with_jump(st.orelse) and (
+                (isinstance(st.test, ast.UnaryOp) and isinstance(st.test.op, ast.Not)) or (
+                    isinstance(st.test, ast.Compare) and len(st.test.ops) == 1 and isinstance(st.test.ops[0], (ast.NotIn, ast.IsNot, ast.NotEq)))):
+            st = ast.If(test=negate(st.test), body=st.orelse, orelse=st.body, lineno=getattr(st, "lineno", 0))
+        pre.append(st)
+    block = pre
     # `if c: T = a  else: T = b`  ->  `T = a if c else b`
     merged = []
     for st in block:
@@ -1156,9 +1263,17 @@ def n_forward(block, owner, field):
 
 
 def n_split(block, owner, field):
-    """a, b = (x, y)  ->  a = x ; b = y     when no target is read by a later component"""
+    """a, b = (x, y)  ->  a = x ; b = y     when no target is read by a later component;
+    a = o.attr = V  ->  o.attr = V ; a = o.attr      (o a plain name other than a; plain attributes, no setters in the package)"""
     out = []
     for st in block:
+        if isinstance(st, ast.Assign) and len(st.targets) == 2 and isinstance(st.targets[0], ast.Name) and isinstance(st.targets[1], ast.Attribute) \
+                and isinstance(st.targets[1].value, ast.Name) and st.targets[1].value.id != st.targets[0].id and not _uses(st.targets[0].id, st.value):
+            path = st.targets[1]
+            out.append(ast.Assign(targets=[path], value=st.value, lineno=getattr(st, "lineno", 0)))
+            out.append(ast.Assign(targets=[st.targets[0]], value=ast.Attribute(value=ast.Name(id=path.value.id, ctx=ast.Load()), attr=path.attr, ctx=ast.Load()),
+                                  lineno=getattr(st, "lineno", 0)))
+            continue
         if isinstance(st, ast.Assign) and len(st.targets) == 1 and isinstance(st.targets[0], ast.Tuple) and isinstance(st.value, ast.Tuple) \
                 and len(st.targets[0].elts) == len(st.value.elts) and all(isinstance(t, ast.Name) for t in st.targets[0].elts) \
                 and not any(isinstance(v, ast.Starred) for v in st.value.elts) and all(pure_read(v) for v in st.value.elts):
@@ -1246,6 +1361,88 @@ def n_coalesce(fn):
 
 def _mentions(name, node):
     return any((isinstance(n, ast.Name) and n.id == name) or (isinstance(n, ast.arg) and n.arg == name) for n in ast.walk(node))
+
+
+# --------------------------------------------------------------------------- N-webs
+def n_webs(fn):
+    """a local that is assigned several times, every time by a plain statement-level assignment whose value is read only
+    by the statements that follow it in the same block up to the next such assignment: each assignment starts a variable
+    of its own (so a name that is reused for unrelated values does not tie the two uses together)"""
+    params = {a.arg for a in ast.walk(fn) if isinstance(a, ast.arg)}
+    glob = {nm for n in ast.walk(fn) if isinstance(n, (ast.Global, ast.Nonlocal)) for nm in n.names}
+    lazy = set()
+    for n in ast.walk(fn):
+        if isinstance(n, (ast.Lambda, ast.GeneratorExp)) or (isinstance(n, (ast.FunctionDef, ast.AsyncFunctionDef, ast.ClassDef)) and n is not fn):
+            lazy |= {x.id for x in ast.walk(n) if isinstance(x, ast.Name)}
+            if not isinstance(n, (ast.Lambda, ast.GeneratorExp)):
+                lazy.add(n.name)
+    stores = {}
+    for n in ast.walk(fn):
+        if isinstance(n, ast.Name) and isinstance(n.ctx, (ast.Store, ast.Del)):
+            stores.setdefault(n.id, []).append(n)
+    par = None
+    for name, nodes in stores.items():
+        if len(nodes) < 2 or name in params or name in glob or name in lazy:
+            continue
+        if par is None:
+            par = _parents(fn)
+        ok = True
+        store_stmts = []
+        for sn in nodes:
+            if not isinstance(sn.ctx, ast.Store):
+                ok = False
+                break
+            p = par.get(id(sn))
+            p2 = par.get(id(p)) if isinstance(p, ast.Tuple) else p
+            if not (isinstance(p2, ast.Assign) and any(t is sn or t is p for t in p2.targets)) or _uses(name, p2.value):
+                ok = False
+                break
+            store_stmts.append(p2)
+        if not ok or len({id(x) for x in store_stmts}) != len(store_stmts):
+            continue
+        ranges = []
+        for stt in store_stmts:
+            owner = par.get(id(stt))
+            blk = None
+            for _, b in blocks_of(owner) if owner is not None else []:
+                if any(x is stt for x in b):
+                    blk = b
+            if blk is None:
+                ok = False
+                break
+            i = next(k for k, x in enumerate(blk) if x is stt)
+            j = len(blk)
+            for k in range(i + 1, len(blk)):
+                if any(blk[k] is x for x in store_stmts):
+                    j = k
+                    break
+            rng = blk[i + 1:j]
+            if any(_stmt_stores(r, name) for r in rng):
+                ok = False
+                break
+            ranges.append((stt, rng))
+        if not ok:
+            continue
+        covered = set()
+        for stt, rng in ranges:
+            for r in rng:
+                for n in ast.walk(r):
+                    if isinstance(n, ast.Name) and n.id == name:
+                        covered.add(id(n))
+        loads = [n for n in ast.walk(fn) if isinstance(n, ast.Name) and n.id == name and isinstance(n.ctx, ast.Load)]
+        if any(id(n) not in covered for n in loads):
+            continue
+        for k, (stt, rng) in enumerate(ranges):
+            new = f"{name}__w{k}"
+            for t in stt.targets:
+                for n in ast.walk(t):
+                    if isinstance(n, ast.Name) and n.id == name and isinstance(n.ctx, ast.Store):
+                        n.id = new
+            for r in rng:
+                for n in ast.walk(r):
+                    if isinstance(n, ast.Name) and n.id == name:
+                        n.id = new
+    return fn
 
 
 # --------------------------------------------------------------------------- N-temp
@@ -1407,12 +1604,38 @@ def _scan_uses(stmts, t, e, summ, mine, tainted):
     return True
 
 
+_CONSUMERS = {"len", "any", "all", "sum", "min", "max", "sorted", "list", "tuple", "set", "frozenset", "bool"}
+
+
+def _reiterable(e):
+    if isinstance(e, (ast.List, ast.Set, ast.Dict, ast.Tuple, ast.ListComp, ast.SetComp, ast.DictComp)):
+        return True
+    return isinstance(e, ast.Call) and isinstance(e.func, ast.Name) and e.func.id in ("list", "set", "sorted", "tuple", "dict", "frozenset")
+
+
+def _iteration_use(load, par):
+    p = par.get(id(load))
+    if isinstance(p, ast.comprehension):
+        return p.iter is load
+    if isinstance(p, ast.For):
+        return p.iter is load
+    if isinstance(p, ast.Call):
+        return isinstance(p.func, ast.Name) and p.func.id in _CONSUMERS and len(p.args) == 1 and p.args[0] is load and not p.keywords
+    if isinstance(p, ast.Compare):
+        return len(p.ops) == 1 and isinstance(p.ops[0], (ast.In, ast.NotIn)) and p.comparators[0] is load
+    return False
+
+
 def _try_inline(fn, block, i, summ, stores, loads):
     st = block[i]
     t = st.targets[0].id
     e = st.value
-    if not pure_read(e) or _uses(t, e):
+    if _uses(t, e):
         return False
+    if not pure_read(e):
+        # a generator expression runs its element expression where it is consumed, whichever form is written
+        if not (isinstance(e, ast.GeneratorExp) and pure_read(e.generators[0].iter)):
+            return False
     if any(isinstance(a, ast.arg) and a.arg == t for a in ast.walk(fn)) or stores.get(t, 0) >= 10:
         return False  # a parameter / global
     later = block[i + 1:]
@@ -1438,14 +1661,25 @@ def _try_inline(fn, block, i, summ, stores, loads):
         if not all(_shielded(n, t, st, fn, par) for n in others):
             return False  # this definition may reach a use outside the region
     n_uses = len(mine)
-    if fresh_value(e) and n_uses > 1:
+    iter_only = False
+    if fresh_value(e) and _reiterable(e):
+        # a container built here and only ever iterated / measured: which object it is cannot be observed
+        par_ = _parents(fn)
+        iter_only = all(_iteration_use(n_, par_) for s_ in region + ([nxt] if tail_loads else []) for n_ in ast.walk(s_) if id(n_) in mine)
+    if fresh_value(e) and n_uses > 1 and not iter_only:
         return False  # a fresh object shared by several uses
-    if fresh_value(e):
+    if fresh_value(e) and not iter_only:
         for s_ in region + ([nxt] if tail_loads else []):
             for n_ in ast.walk(s_):
                 if isinstance(n_, (ast.For, ast.While, ast.ListComp, ast.SetComp, ast.DictComp, ast.GeneratorExp)) and any(id(x) in mine for x in ast.walk(n_)):
-                    if not (isinstance(n_, ast.For) and any(id(x) in mine for x in ast.walk(n_.iter)) and not any(
-                            id(x) in mine for b_ in n_.body + n_.orelse for x in ast.walk(b_))):
+                    once = isinstance(n_, ast.For) and any(id(x) in mine for x in ast.walk(n_.iter)) and not any(
+                        id(x) in mine for b_ in n_.body + n_.orelse for x in ast.walk(b_))
+                    if not isinstance(n_, (ast.For, ast.While)):
+                        # the first iterable of a comprehension is evaluated once, where the comprehension is written
+                        first = n_.generators[0].iter
+                        inside = sum(1 for x in ast.walk(n_) if id(x) in mine)
+                        once = inside == sum(1 for x in ast.walk(first) if id(x) in mine)
+                    if not once:
                         return False  # defined once, used once per iteration: one object shared by all iterations
     scope = region + ([nxt] if tail_loads else [])
     for s_ in scope:
@@ -1455,7 +1689,10 @@ def _try_inline(fn, block, i, summ, stores, loads):
     if n_uses == 0:
         del block[i]  # a store nothing reads
         return True
-    if not _scan_uses(scope, t, e, summ, mine, [False]):
+    # a generator expression evaluates only its first iterable where it is written; the rest runs where it is consumed,
+    # which is the use in both forms
+    e_now = e.generators[0].iter if isinstance(e, ast.GeneratorExp) else e
+    if not _scan_uses(scope, t, e_now, summ, mine, [False]):
         return False
     sub = _Subst(t, e)
     for k in range(i + 1, i + 1 + len(scope)):
@@ -1536,6 +1773,65 @@ class _Rename(ast.NodeTransformer):
         return node
 
 
+def _tree_inlinable(h):
+    """a helper all of whose `return`s sit under plain `if`s (none in a loop / try / with): its body is a decision tree
+    whose leaves are the returns"""
+    body = [s for s in h.body if not (isinstance(s, ast.Expr) and isinstance(s.value, ast.Constant))]
+    if not body:
+        return None
+    if any(isinstance(n, ast.Call) and ((isinstance(n.func, ast.Name) and n.func.id == h.name) or (
+            isinstance(n.func, ast.Attribute) and n.func.attr == h.name)) for n in ast.walk(h)):
+        return None
+    if any(isinstance(n, (ast.Yield, ast.YieldFrom, ast.Await, ast.Global, ast.Nonlocal, ast.Lambda)) for n in ast.walk(h)):
+        return None
+    if any(isinstance(n, (ast.FunctionDef, ast.AsyncFunctionDef, ast.ClassDef)) for s in body for n in ast.walk(s)):
+        return None
+    if h.args.vararg or h.args.kwarg or h.args.kwonlyargs or h.args.posonlyargs:
+        return None
+    if any(unparse(d) not in ("staticmethod",) for d in h.decorator_list):
+        return None
+
+    def ok(stmts):
+        for st in stmts:
+            if isinstance(st, ast.If):
+                if not ok(st.body) or not ok(st.orelse):
+                    return False
+            elif not isinstance(st, ast.Return) and any(isinstance(n, ast.Return) for n in ast.walk(st)):
+                return False
+        return True
+    return body if ok(body) else None
+
+
+def _always_returns(stmts):
+    if not stmts:
+        return False
+    last = stmts[-1]
+    if isinstance(last, (ast.Return, ast.Raise)):
+        return True
+    return isinstance(last, ast.If) and bool(last.orelse) and _always_returns(last.body) and _always_returns(last.orelse)
+
+
+def _return_tree(stmts, leaf):
+    """the statements with every `return E` replaced by leaf(E) and whatever follows an `if` that returns on some path
+    moved into the branches that fall through"""
+    out = []
+    for i, st in enumerate(stmts):
+        if isinstance(st, ast.Return):
+            out.extend(leaf(st.value))
+            return out
+        if isinstance(st, ast.If) and any(isinstance(n, ast.Return) for n in ast.walk(st)):
+            rest = stmts[i + 1:]
+            body = _return_tree(list(st.body) + ([] if _always_returns(st.body) else [copy.deepcopy(x) for x in rest]), leaf)
+            orelse = _return_tree(list(st.orelse) + ([] if _always_returns(st.orelse) else [copy.deepcopy(x) for x in rest]), leaf)
+            out.append(ast.If(test=st.test, body=body or [ast.Pass()], orelse=orelse, lineno=0))
+            return out
+        out.append(st)
+        if isinstance(st, ast.Raise):
+            return out
+    out.extend(leaf(None))
+    return out
+
+
 def n_helper(fn, helpers, counter):
     """helpers: {('self', name) | ('', name): FunctionDef} of callables that do not exist in the reference"""
     if not helpers:
@@ -1551,10 +1847,7 @@ def n_helper(fn, helpers, counter):
             return helpers[("", f.id)], False
         return None, False
 
-    def expand(call, h, is_method):
-        body = _inlinable(h)
-        if body is None:
-            return None
+    def bind_args(call, h, is_method):
         params = [a.arg for a in h.args.args]
         static = "staticmethod" in [unparse(d) for d in h.decorator_list]
         if is_method and not static:
@@ -1576,12 +1869,39 @@ def n_helper(fn, helpers, counter):
                     bind[p] = defaults[i - n_req]
                 else:
                     return None
+        return params, bind
+
+    def expand(call, h, is_method, leaf):
+        """statements that replace the statement holding the call; leaf(E) gives the statements for a returned value E"""
+        variants = [h] + ([h._pgv_simplified] if getattr(h, "_pgv_simplified", None) is not None else [])
+        body = None
+        for hv in variants:
+            body = _inlinable(hv)
+            if body is not None:
+                h = hv
+                break
+        tree = False
+        if body is None:
+            for hv in variants:
+                body = _tree_inlinable(hv)
+                if body is not None:
+                    h = hv
+                    tree = True
+                    break
+        if body is None:
+            return None
+        pb = bind_args(call, h, is_method)
+        if pb is None:
+            return None
+        params, bind = pb
         counter[0] += 1
         tag = f"__h{counter[0]}_"
         locals_ = {n.id for s in body for n in ast.walk(s) if isinstance(n, ast.Name) and isinstance(n.ctx, (ast.Store, ast.Del))}
         mapping = {loc: tag + loc for loc in locals_ | set(params)}
         pre = [ast.Assign(targets=[ast.Name(id=tag + p, ctx=ast.Store())], value=copy.deepcopy(bind[p]), lineno=0) for p in params]
         new_body = [_Rename(dict(mapping)).visit(copy.deepcopy(s)) for s in body]
+        if tree:
+            return pre + _return_tree(new_body, leaf)
         if getattr(h, "_pgv_search_loop", False):
             # result variable: assigned the default, overwritten (and the loop left) where the helper returned
             res = tag + "result"
@@ -1612,61 +1932,106 @@ def n_helper(fn, helpers, counter):
 
             loop = _Ret().visit(loop)
             stmts = pre + new_body[:-2] + [ast.Assign(targets=[ast.Name(id=res, ctx=ast.Store())], value=default, lineno=0), loop]
-            return stmts, ast.Name(id=res, ctx=ast.Load())
+            return stmts + leaf(ast.Name(id=res, ctx=ast.Load()))
         ret = None
         if new_body and isinstance(new_body[-1], ast.Return):
             ret = new_body[-1].value
             new_body = new_body[:-1]
-        return pre + new_body, ret
+        return pre + new_body + leaf(ret)
+
+    def expr_inline(node):
+        """a call of a helper that is a single `return <expr>`, inside an expression"""
+        h2, is_m2 = callee(node)
+        if h2 is None:
+            return node
+        for hv in [h2] + ([h2._pgv_simplified] if getattr(h2, "_pgv_simplified", None) is not None else []):
+            b2 = _inlinable(hv)
+            if b2 is None or len(b2) != 1 or not isinstance(b2[0], ast.Return) or b2[0].value is None:
+                continue
+            pb = bind_args(node, hv, is_m2)
+            if pb is None:
+                continue
+            params, bind = pb
+            expr = b2[0].value
+            if any(isinstance(n, (ast.Lambda, ast.NamedExpr)) for n in ast.walk(expr)):
+                continue
+            uses = {p_: [n for n in ast.walk(expr) if isinstance(n, ast.Name) and n.id == p_] for p_ in params}
+            if not all(pure_read(bind[p_]) for p_ in params):
+                # an argument whose evaluation may do something: it must be evaluated exactly once and in the order of the
+                # call -- every parameter is read once, outside any comprehension, in parameter order, and nothing else in
+                # the expression does anything
+                skeleton = _Rename({p_: ast.Constant(value=0) for p_ in params}).visit(copy.deepcopy(expr))
+                in_comp = {id(n) for c in ast.walk(expr) if isinstance(c, (ast.ListComp, ast.SetComp, ast.DictComp, ast.GeneratorExp, ast.IfExp, ast.BoolOp))
+                           for n in ast.walk(c) if isinstance(n, ast.Name)}
+                order = [n.id for n in _eval_order(expr) if isinstance(n, ast.Name) and n.id in params]
+                if not pure_read(skeleton) or any(len(u) != 1 for u in uses.values()) or any(id(u[0]) in in_comp for u in uses.values()) \
+                        or order != params:
+                    continue
+            elif not pure_read(expr) and not all(isinstance(bind[p_], (ast.Name, ast.Constant)) for p_ in params):
+                # the helper does something between its reads of a parameter: only plain names keep their value
+                continue
+            return _Rename({p_: bind[p_] for p_ in params}).visit(copy.deepcopy(expr))
+        return node
 
     def on_block(block, owner, field):
         out = []
         for st in block:
+            # [e for x in L if helper(x)] with a helper made of statements: as a loop, where the helper can be inlined
+            val = st.value if isinstance(st, (ast.Assign, ast.Return)) else None
+            if isinstance(val, ast.ListComp) and len(val.generators) == 1 and len(val.generators[0].ifs) == 1 \
+                    and isinstance(val.generators[0].ifs[0], ast.Call) and not val.generators[0].is_async:
+                hh, _m = callee(val.generators[0].ifs[0])
+                if hh is not None and ast.dump(expr_inline(val.generators[0].ifs[0])) == ast.dump(val.generators[0].ifs[0]):
+                    counter[0] += 1
+                    tag = f"__h{counter[0]}_"
+                    g = val.generators[0]
+                    ren = _Rename({n.id: tag + n.id for n in ast.walk(g.target) if isinstance(n, ast.Name)})
+                    acc = tag + "acc"
+                    app = ast.Expr(value=ast.Call(func=ast.Attribute(value=ast.Name(id=acc, ctx=ast.Load()), attr="append", ctx=ast.Load()),
+                                                  args=[ren.visit(copy.deepcopy(val.elt))], keywords=[]))
+                    loop = ast.For(target=ren.visit(copy.deepcopy(g.target)), iter=g.iter,
+                                   body=[ast.If(test=ren.visit(copy.deepcopy(g.ifs[0])), body=[app], orelse=[], lineno=0)], orelse=[], lineno=0)
+                    out.append(ast.Assign(targets=[ast.Name(id=acc, ctx=ast.Store())], value=ast.List(elts=[], ctx=ast.Load()), lineno=0))
+                    out.append(loop)
+                    if isinstance(st, ast.Return):
+                        out.append(ast.Return(value=ast.Name(id=acc, ctx=ast.Load())))
+                    else:
+                        out.append(ast.Assign(targets=st.targets, value=ast.Name(id=acc, ctx=ast.Load()), lineno=0))
+                    continue
             call = None
-            where = None
+            leaf = None
             if isinstance(st, ast.Expr) and isinstance(st.value, ast.Call):
-                call, where = st.value, "expr"
+                call = st.value
+                leaf = lambda e: [] if e is None or pure_read(e) else [ast.Expr(value=e)]  # noqa: E731
             elif isinstance(st, ast.Assign) and isinstance(st.value, ast.Call):
-                call, where = st.value, "assign"
+                call = st.value
+                leaf = lambda e, st=st: [ast.Assign(targets=copy.deepcopy(st).targets, value=e if e is not None else ast.Constant(value=None), lineno=0)]  # noqa: E731
             elif isinstance(st, ast.Return) and isinstance(st.value, ast.Call):
-                call, where = st.value, "return"
+                call = st.value
+                leaf = lambda e: [ast.Return(value=e)]  # noqa: E731
+            elif isinstance(st, ast.If) and (isinstance(st.test, ast.Call) or (
+                    isinstance(st.test, ast.UnaryOp) and isinstance(st.test.op, ast.Not) and isinstance(st.test.operand, ast.Call))):
+                neg = not isinstance(st.test, ast.Call)
+                call = st.test.operand if neg else st.test
+
+                def leaf(e, st=st, neg=neg):
+                    yes, no = (st.orelse, st.body) if neg else (st.body, st.orelse)
+                    if e is None or isinstance(e, ast.Constant):
+                        return [copy.deepcopy(x) for x in (yes if (e is not None and e.value) else no)]
+                    return [ast.If(test=e, body=[copy.deepcopy(x) for x in yes] or [ast.Pass()], orelse=[copy.deepcopy(x) for x in no], lineno=0)]
             done = False
             if call is not None:
                 h, is_m = callee(call)
-                if h is not None:
-                    r = expand(call, h, is_m)
+                if h is not None and ast.dump(expr_inline(call)) == ast.dump(call):
+                    r = expand(call, h, is_m, leaf)
                     if r is not None:
-                        stmts, ret = r
-                        out.extend(stmts)
-                        if where == "assign":
-                            out.append(ast.Assign(targets=st.targets, value=ret if ret is not None else ast.Constant(value=None), lineno=0))
-                        elif where == "return":
-                            out.append(ast.Return(value=ret))
-                        elif ret is not None and not pure_read(ret):
-                            out.append(ast.Expr(value=ret))
+                        out.extend(r)
                         done = True
             if not done:
-                # a helper that is a single `return <expr>` used inside an expression
                 class _E(ast.NodeTransformer):
                     def visit_Call(s, node):  # noqa: N805
                         s.generic_visit(node)
-                        h2, is_m2 = callee(node)
-                        if h2 is None:
-                            return node
-                        b2 = _inlinable(h2)
-                        if b2 is None or len(b2) != 1 or not isinstance(b2[0], ast.Return) or b2[0].value is None:
-                            return node
-                        params = [a.arg for a in h2.args.args]
-                        static = "staticmethod" in [unparse(d) for d in h2.decorator_list]
-                        if is_m2 and not static:
-                            params = params[1:]
-                        if node.keywords or len(node.args) != len(params) or any(isinstance(a, ast.Starred) for a in node.args):
-                            return node
-                        if not all(pure_read(a) for a in node.args):
-                            return node
-                        expr = copy.deepcopy(b2[0].value)
-                        # every parameter used at most once, or the argument is a plain read
-                        return _Rename(dict(zip(params, node.args))).visit(expr)
+                        return expr_inline(node)
                 st = _E().visit(st)
                 out.append(st)
         return out
@@ -1674,6 +2039,15 @@ def n_helper(fn, helpers, counter):
     for _ in range(3):
         rewrite_blocks(fn, on_block)
     return fn
+
+
+def _eval_order(e):
+    """nodes of an expression in (approximate) evaluation order: children left to right, a call's function first"""
+    out = []
+    for c in ast.iter_child_nodes(e):
+        out.extend(_eval_order(c))
+    out.append(e)
+    return out
 
 
 # --------------------------------------------------------------------------- final numbering and comparison
@@ -1782,19 +2156,7 @@ def _strip_pos(node):
     return node
 
 
-def normal_form(fn, summ, helpers=None, canon=None):
-    drop_ = getattr(fn, "_pgv_drop_nested", None)
-    fn = copy.deepcopy(fn)
-    if drop_:
-        fn._pgv_drop_nested = drop_
-    counter = [0]
-    if helpers:
-        fn = n_helper(fn, helpers, counter)
-        drop = getattr(fn, "_pgv_drop_nested", None) or set()
-        if drop:
-            # nested helpers that are no longer referenced after inlining
-            still = {n.id for n in ast.walk(fn) if isinstance(n, ast.Name) and isinstance(n.ctx, ast.Load)}
-            fn.body = [s_ for s_ in fn.body if not (isinstance(s_, ast.FunctionDef) and s_.name in drop and s_.name not in still)] or [ast.Pass()]
+def _simplify(fn, summ, canon=None):
     prev = None
     for _ in range(6):
         cur_dump = ast.dump(fn)
@@ -1802,7 +2164,10 @@ def normal_form(fn, summ, helpers=None, canon=None):
             break
         prev = cur_dump
         fn = _Expr().visit(fn)
+        fn = n_webs(fn)
+        n_comp._fn = fn
         rewrite_blocks(fn, n_comp)
+        n_comp._fn = None
         rewrite_blocks(fn, n_flow)
         if canon is not None:
             fn = canon(fn)
@@ -1819,6 +2184,30 @@ def normal_form(fn, summ, helpers=None, canon=None):
         fn = _Expr().visit(fn)
     if canon is not None:
         fn = canon(fn)
+    return fn
+
+
+def normal_form(fn, summ, helpers=None, canon=None):
+    drop_ = getattr(fn, "_pgv_drop_nested", None)
+    fn = copy.deepcopy(fn)
+    if drop_:
+        fn._pgv_drop_nested = drop_
+    counter = [0]
+    if helpers:
+        for h in helpers.values():
+            if not hasattr(h, "_pgv_simplified"):
+                h._pgv_simplified = None
+                try:
+                    h._pgv_simplified = _simplify(copy.deepcopy(h), summ, canon)
+                except RecursionError:
+                    pass
+        fn = n_helper(fn, helpers, counter)
+        drop = getattr(fn, "_pgv_drop_nested", None) or set()
+        if drop:
+            # nested helpers that are no longer referenced after inlining
+            still = {n.id for n in ast.walk(fn) if isinstance(n, ast.Name) and isinstance(n.ctx, ast.Load)}
+            fn.body = [s_ for s_ in fn.body if not (isinstance(s_, ast.FunctionDef) and s_.name in drop and s_.name not in still)] or [ast.Pass()]
+    fn = _simplify(fn, summ, canon)
     # docstring
     if fn.body and isinstance(fn.body[0], ast.Expr) and isinstance(fn.body[0].value, ast.Constant) and isinstance(fn.body[0].value.value, str):
         fn.body = fn.body[1:] or [ast.Pass()]
